@@ -913,7 +913,19 @@ def run_slots(ctx: common.Ctx, props, n_docs: int, n_ops: int):
                 break            # a violated property may have left the tree unusable
             if len(list(root.token_store)) > 400:
                 break
-    bad = ctx.run_coq_cases('slots', PREAMBLE, 'case', 'check_case', cases, chunk=12)
+    bad0 = ctx.run_coq_cases('slots', PREAMBLE, 'case', 'check_both', cases, chunk=12)
+    # check_both = model agrees AND the layout invariant (hypothesis of the theorems) holds on the state before
+    bad = []
+    if bad0:
+        sub = ctx.run_coq_cases('slots_re', PREAMBLE, 'case', 'check_case', [cases[i] for i in bad0], chunk=12)
+        bad = [bad0[k] for k in sub]
+        nolay = [i for i in bad0 if i not in bad]
+        ctx.count('layout_hypothesis_false', len(nolay))
+        for i in nolay[:3]:
+            op = case_meta[i][1][-1]
+            ctx.notes.append(f'layout_b false before {op["op"]} on {op["attr"]} (theorems do not apply to this state): '
+                             + json.dumps({'text': case_meta[i][0], 'script': case_meta[i][1]})[:600])
+    ctx.count('layout_hypothesis_checked', len(cases))
     ctx.count('traces_validated_against_impl', len(cases) - len(bad))
     for i in bad[:3]:
         text, script = case_meta[i]
